@@ -259,6 +259,9 @@ def run(res, tier):
         if not cls.get(nm):
             res.inconclusive.append("vacuity: try_update never yields %s" % nm)
     check_refresh(res, E)
+    import c06
+    c06.check_cli_policy(res, E, name="rrdp_fallback", flag="--rrdp-fallback",
+                         consequence="the fallback table is then evaluated with another policy than the one the operator gave")
     res.bounds.append("all paths of Run::repository and RepositoryUpdate::try_update (loop-free); the six inputs "
                       "(rpkiNotify present, RRDP enabled, rsync enabled, policy, load Ok/Err, load result) are "
                       "symbolic integers: the full product is decided by z3 per path, not enumerated")
